@@ -7,7 +7,7 @@ STUBS = ['requests.request -> fake recording the URL; what each client request m
          '(requests ConnectionError) | one transient 5xx then 200 | two transient 5xx then 404 | six transient 5xx (retries exhausted)',
          'pytezos.rpc.node.sleep -> no-op', 'json.dumps/pformat in log lines -> constant']
 BOUNDS = {'quick': 'pools of 1..4 nodes; (a) distinct addresses, 5 client requests, every outcome vector over the 7 outcome kinds; (b) every pool whose slots are chosen among two addresses '
-                   '(one of them also written with a trailing slash), 4 client requests over 3 outcome kinds',
+                   '(one of them also written with a trailing slash), 4 client requests over 3 outcome kinds; (c) 2..3 nodes, 3 client requests each issued through request/get/post/delete over 4 outcome kinds',
           'thorough': '6 client requests in (a), 5 in (b)'}
 OUTSIDE = ['more than 4 nodes / longer request sequences', 'HTTP transport itself']
 ASSUMPTIONS = ['a failing request is one for which RpcNode.request raises (RpcError for an HTTP error status, or the transport exception raised by requests)',
@@ -35,7 +35,10 @@ class _Resp:
         return self._json
 
 
-def _drive(uris, outcomes):
+VIA = ['request', 'get', 'post', 'delete']   # how the client request is issued (the convenience verbs go through request())
+
+
+def _drive(uris, outcomes, vias=None):
     """-> list (one entry per client request) of the URLs hit by that request"""
     import requests.exceptions
 
@@ -60,8 +63,14 @@ def _drive(uris, outcomes):
         for o in outcomes:
             hits.append([])
             script[:] = list(SCRIPTS[o])
+            via = VIA[vias[len(hits) - 1]] if vias else 'request'
             try:
-                mn.request('GET', 'chains/main/blocks/head')
+                if via == 'request':
+                    mn.request('GET', 'chains/main/blocks/head')
+                elif via == 'post':
+                    mn.post('chains/main/blocks/head', json={})
+                else:
+                    getattr(mn, via)('chains/main/blocks/head')
             except (N.RpcError, requests.exceptions.ConnectionError):
                 pass
     return hits
@@ -71,8 +80,8 @@ def _norm(u):
     return u.rstrip('/')
 
 
-def _verdict(uris, outcomes):
-    hits = _drive(uris, outcomes)
+def _verdict(uris, outcomes, vias=None):
+    hits = _drive(uris, outcomes, vias)
     n = len(uris)
     problems = []
     for i, (o, h) in enumerate(zip(outcomes, hits)):
@@ -92,17 +101,23 @@ def _decode(P, get):
     if P['family'] == 'distinct':
         uris = [f'http://node{i}' for i in range(n)]
         outs = [get(f'o{i}', 0, 6) for i in range(k)]
+        if P.get('verbs'):
+            outs = [[OK, E404, E500, T1_OK][get(f'o{i}', 0, 3)] for i in range(k)]
     else:
         uris = [ADDR[get(f'u{i}', 0, 2)] for i in range(n)]
         outs = [[OK, E404, T1_OK][get(f'o{i}', 0, 2)] for i in range(k)]
     return uris, outs
 
 
+def _vias(P, get):
+    return [get(f'm{i}', 0, len(VIA) - 1) for i in range(P['k'])] if P.get('verbs') else None
+
+
 def sym(P, ex):
     from harness import mbv
 
     uris, outs = _decode(P, lambda name, lo, hi: mbv._choose(ex, name, lo, hi))
-    problems, _ = _verdict(uris, outs)
+    problems, _ = _verdict(uris, outs, _vias(P, lambda name, lo, hi: mbv._choose(ex, name, lo, hi)))
     if problems:
         ex.fail_here(problems[0])
     ex.check(True)
@@ -110,7 +125,7 @@ def sym(P, ex):
 
 def concrete(P, w):
     uris, outs = _decode(P, lambda name, lo, hi: int(w.get(name, lo)))
-    problems, hits = _verdict(uris, outs)
+    problems, hits = _verdict(uris, outs, _vias(P, lambda name, lo, hi: int(w.get(name, lo))))
     return {'ok': not problems, 'pool': uris, 'outcomes': [KINDS[o] for o in outs], 'observed': problems[:3], 'hits': hits}
 
 
@@ -122,6 +137,11 @@ def obligations(tier):
         obs.append(Ob(name=f'rotation/n={n}/k={k}', engine='bvx', sym=sym, concrete=concrete, P={'family': 'distinct', 'k': k, 'n': n},
                       timeout=600 if q else 3000, bounds=f'{n} node(s) with distinct addresses, {k} client requests, what each meets is chosen by the solver among 7 kinds',
                       targets=TARGETS, stubs=STUBS, opts={'W': 16}))
+    for n in (2, 3):
+        k = 3 if q else 4
+        obs.append(Ob(name=f'rotation/verbs/n={n}/k={k}', engine='bvx', sym=sym, concrete=concrete, P={'family': 'distinct', 'k': k, 'n': n, 'verbs': True},
+                      timeout=600 if q else 3000, bounds=f'{n} nodes, {k} client requests, each issued through request/get/post/delete (solver-chosen) and meeting one of 4 kinds (200, 404, 500, transient then 200)',
+                      targets=TARGETS + ['pytezos.rpc.node.RpcNode.get/post/delete'], stubs=STUBS, opts={'W': 16}))
     for n in (2, 3, 4):
         k = 4 if q else 5
         obs.append(Ob(name=f'rotation/repeated-addresses/n={n}/k={k}', engine='bvx', sym=sym, concrete=concrete, P={'family': 'repeated', 'k': k, 'n': n},
